@@ -130,6 +130,46 @@ func Drive(out io.Writer, seed int64, runs, length int) (map[string]int, error) 
 				return nil, err
 			}
 		}
+		// drain with the canonical schedule: relay everything pending in order, commit to every recorded withdrawal,
+		// let the challenge window pass, claim everything once.  The last line asks the trace spec to check Drained.
+		for guard := 0; guard < 500; guard++ {
+			n := int(absx.Int(p.L2.Project()["seqL1"]))
+			if n > len(p.Deps) {
+				break
+			}
+			d := absx.Map(p.Deps[n-1])
+			if err := exec1(M{"chain": "L2", "e": M{"type": "FinalizeTokenDeposit", "signer": "e1", "seq": d["seq"], "from": d["from"], "to": d["to"], "denom": d["l2denom"],
+				"amt": d["amt"], "base": d["l1denom"], "height": int64(5), "hook": M{"kind": "none", "signer": "", "msgs": []any{}}, "fault": "none"}}); err != nil {
+				return nil, err
+			}
+		}
+		st1 := p.L1.Project()
+		nextOut := absx.Int(absx.Map(st1["nextOut"])["1"])
+		proposer := absx.Str(absx.Map(absx.Map(st1["cfg"])["1"])["proposer"])
+		period := absx.Int(absx.Map(absx.Map(st1["cfg"])["1"])["period"])
+		if n := len(p.Wds); n > 0 {
+			if err := exec1(M{"chain": "L1", "e": M{"type": "ProposeOutput", "signer": proposer, "b": int64(1), "idx": nextOut, "l2bn": nextOut,
+				"root": M{"v": int64(0), "t": fmt.Sprintf("W%d", n), "h": "h1"}, "tree": p.treeOf(run, n), "bad": "none"}}); err != nil {
+				return nil, err
+			}
+			if err := exec1(M{"chain": "L1", "e": M{"type": "AdvanceBlock", "dt": period + 2}}); err != nil {
+				return nil, err
+			}
+			for i := 1; i <= n; i++ {
+				wd := absx.Map(p.Wds[i-1])
+				ce := M{"type": "FinalizeTokenWithdrawal", "signer": "x", "b": int64(1), "out": nextOut,
+					"w": M{"seq": wd["seq"], "from": wd["from"], "to": wd["to"], "denom": wd["base"], "amt": wd["amt"]}, "v": int64(0), "tree": p.treeOf(run, n), "pos": int64(i), "h": "h1", "mut": "none", "bad": "none"}
+				cb := p.L1.BuildClaim(ce)
+				ce["root"] = cb.RootName
+				ce["proofOK"] = cb.ProofOK
+				if err := exec1(M{"chain": "L1", "e": ce}); err != nil {
+					return nil, err
+				}
+			}
+		}
+		if err := exec1(M{"chain": "L1", "e": M{"type": "AdvanceBlock", "dt": int64(0), "expectDrained": true}}); err != nil {
+			return nil, err
+		}
 	}
 	_ = l2.ChainID
 	return stats, nil
